@@ -34,7 +34,7 @@ type Event struct {
 // CallRec records an evaluated call to a function outside the module (or a builtin).
 type CallRec struct {
 	Callee string // full name, e.g. "io.ReadFull", "(*math/big.Int).Quo", "invoke:Write"
-	Instr  ssa.CallInstruction
+	Instr  ssa.Instruction
 	Fn     *ssa.Function
 	Recv   AV
 	Args   []AV
@@ -45,9 +45,10 @@ type CallRec struct {
 
 // EdgeCond is a branch edge that dominates an exit: the condition and the direction taken.
 type EdgeCond struct {
-	If    *ssa.If
-	Taken bool
-	Val   AV
+	If       *ssa.If
+	Taken    bool
+	Val      AV
+	LoopTest bool // the branch is the exit test of a loop header
 }
 
 // Exit is a feasible Return of some frame.
@@ -123,6 +124,8 @@ type Eval struct {
 	Loops  []LoopInfo
 	stack  []*ssa.Function
 	initMode bool
+	builderMode bool                // evaluating a once-run builder: stores to globals are tracked locally
+	GStore      map[*ssa.Global]AV
 	activeLoops []*loopCtx
 	GlobalInit map[*ssa.Global]AV
 	GlobalObj  State
@@ -571,7 +574,13 @@ func (e *Eval) controlling(fr *frame, b *ssa.BasicBlock) []EdgeCond {
 		if viaT == viaF {
 			continue
 		}
-		out = append(out, EdgeCond{If: ifi, Taken: viaT, Val: e.val(fr, ifi.Cond)})
+		isLoop := false
+		for _, p := range d.Preds {
+			if d.Dominates(p) {
+				isLoop = true
+			}
+		}
+		out = append(out, EdgeCond{If: ifi, Taken: viaT, Val: e.val(fr, ifi.Cond), LoopTest: isLoop})
 	}
 	return out
 }
@@ -1593,6 +1602,9 @@ func (e *Eval) indexAddr(fr *frame, x *ssa.IndexAddr, st State) AV {
 	default:
 		n = e.lenOf(fr, base, st)
 		e.boundsCheck(fr, x, idx, n, "slice "+shortAV(base))
+		if l, ok := base.(*ListV); ok {
+			e.Calls = append(e.Calls, CallRec{Callee: "listindex", Instr: x, Fn: fr.fn, Args: []AV{l, idx}, InLoop: len(e.activeLoops) > 0})
+		}
 		return PtrV{Elem: &ElemRef{Base: base, Idx: idx}}
 	}
 	e.event("P2", Undecided, x, "index into %v not modelled", base)
@@ -1756,6 +1768,7 @@ func (e *Eval) lookup(fr *frame, x *ssa.Lookup, st State) AV {
 			val = e.zeroOf(x.Type())
 		}
 	}
+	e.Calls = append(e.Calls, CallRec{Callee: "lookup", Instr: x, Fn: fr.fn, Args: []AV{m, k}, Res: val, InLoop: len(e.activeLoops) > 0})
 	if x.CommaOk {
 		return TupleV{val, okv}
 	}
@@ -1783,6 +1796,13 @@ func (e *Eval) store(fr *frame, x *ssa.Store, st State) {
 				}
 				e.GlobalObj[pv.O] = st[pv.O]
 			}
+			return
+		}
+		if e.builderMode {
+			if e.GStore == nil {
+				e.GStore = map[*ssa.Global]AV{}
+			}
+			e.GStore[p.G] = v
 			return
 		}
 		e.event("E1", Violated, x, "store to package-level variable %s", p.G.Name())
@@ -1886,6 +1906,9 @@ func (e *Eval) loadGlobal(fr *frame, g *ssa.Global, t types.Type) AV {
 	}
 	if e.G == nil {
 		return TopV{"global " + g.Name()}
+	}
+	if v, ok := e.GStore[g]; ok {
+		return v
 	}
 	return e.G.load(e, g, t)
 }
